@@ -593,7 +593,7 @@ pub fn child_main(args: &Args) -> ! {
     std::fs::create_dir_all(&case_dir).unwrap();
     let entry = case_dir.join(&names[0]);
 
-    let _hooks = FHooks::install();
+    let hooks = FHooks::install();
     proc::child::install_panic_hook();
 
     // full observation: the container dump, plus every pack opened directly through its own
@@ -658,6 +658,8 @@ pub fn child_main(args: &Args) -> ! {
 
     for i in lo..hi {
         proc::child::begin(i);
+        // one case in three also has jubako's reader-side streams return seeded short reads
+        hooks.set_short_reads(if i % 3 == 1 { 250 } else { 0 }, i);
         let fault = &faults[i as usize];
         let mut files = pristine_bytes.clone();
         let fired = fault.apply(&mut files);
